@@ -15,6 +15,7 @@ fields with getters, multi-name declarations; all result shapes; optional header
 embedded shoot.RestClient; methods with and without context in the same interface.
 """
 import json
+import re
 
 VERBS = ["GET", "POST", "PUT", "PATCH", "DELETE"]
 BODY_VERBS = ("POST", "PUT", "PATCH")
@@ -40,7 +41,8 @@ STR_SAFE = STR_PATH_SAFE + STR_PATH_UNSAFE
 STR_QUERY_ONLY = ["100%", "{x}", "%41", "{id}", "50%25", "a{b"]
 BASE_PATHS = ["", "/", "/api", "/api/", "/api/v1", "/b.c/d-e"]
 # (path, query) of the configured base URL; the query keys collide with parameter / map names on purpose
-BASES = [(b, []) for b in BASE_PATHS] + [("/api", [("x", "1"), ("sort", "base")]), ("/v/", [("q", "0")])]
+INVALID_BASE = "<invalid>"          # stands for shoot.BaseURL("http://[::1"): url.JoinPath fails, the method returns the error
+BASES = [(b, []) for b in BASE_PATHS] + [("/api", [("x", "1"), ("sort", "base")]), ("/v/", [("q", "0")]), (INVALID_BASE, [])]
 QSCALARS = {"QKind": "string", "QNum": "int64"}      # named scalars declared in the helper package
 # names on which transfer.ToCamelCase / ToPascalCase are NOT the identity are frequent on purpose (acronym runs, underscores)
 STRUCT_FIELD_NAMES = ["Name", "PageSize", "UserID", "Active", "Q", "HTTPCode", "Kind", "Note", "secret", "ownerId", "n",
@@ -111,7 +113,7 @@ def gen_struct(rng, name, qual):
         exported = n[0].isupper()
         alias = None
         if rng.random() < 0.4:
-            c = [a for a in ALIAS_NAMES + ["name", "size"] if a not in used_alias and "|" not in a and "-" not in a]
+            c = [a for a in ALIAS_NAMES + ["name", "size"] if a not in used_alias and re.fullmatch(r"\w+", a, re.ASCII)]
             # `alias=(\w+)` takes word characters only
             if c:
                 alias = rng.choice(c)
@@ -122,6 +124,7 @@ def gen_struct(rng, name, qual):
             group.append(names[i + 1])
             i += 1
         fields.append({"names": group, "gotype": gotype, "ptr": ptr, "alias": alias,
+                       "tagpre": rng.choice(["", "", "q,", "x;", "get "]), "tagpost": rng.choice(["", "", ",omitempty", ";y", " z"]),
                        "json": (rng.choice(["n", "v_%d" % i, "-"]) if rng.random() < 0.3 else None)})
         i += 1
     return {"name": name, "fields": fields, "qual": qual}
@@ -286,7 +289,7 @@ def render_struct(st):
         if f["json"]:
             tags.append('json:"%s"' % f["json"])
         if f["alias"]:
-            tags.append('shoot:"alias=%s"' % f["alias"])
+            tags.append('shoot:"%salias=%s%s"' % (f.get("tagpre", ""), f["alias"], f.get("tagpost", "")))
         tag = (" `" + " ".join(tags) + "`") if tags else ""
         out.append("\t%s %s%s" % (", ".join(f["names"]), field_go_type(f), tag))
     out.append("}")
@@ -419,7 +422,7 @@ def coq_field_decl(f):
     if f["json"]:
         tags.append('json:"%s"' % f["json"])
     if f["alias"]:
-        tags.append('shoot:"alias=%s"' % f["alias"])
+        tags.append('shoot:"%salias=%s%s"' % (f.get("tagpre", ""), f["alias"], f.get("tagpost", "")))
     tag = ("Some %s" % coq_str("`" + " ".join(tags) + "`")) if tags else "None"
     return ("{| fd_names := %s; fd_type := %s; fd_star := %s; fd_tag := %s |}"
             % (coq_list(coq_str(n) for n in f["names"]), coq_str(field_go_type(f)), coq_bool(f["ptr"]), tag))
@@ -949,7 +952,8 @@ def render_driver(modname, clients, cases):
     cand = sorted({c[1] for c in clients} | {c[3]["qpkg"]["name"] for c in cases if c[3]["qpkg"]})
     out = [None]
     for var, pkgname, iname, prefix in clients:
-        out.append("\tvar %s %s.%s = shoot.NewRest[%s.%s](shoot.BaseURL(base + %s))" % (var, pkgname, iname, pkgname, iname, go_str(prefix)))
+        burl = go_str("http://[::1") if prefix == INVALID_BASE else "base + %s" % go_str(prefix)
+        out.append("\tvar %s %s.%s = shoot.NewRest[%s.%s](shoot.BaseURL(%s))" % (var, pkgname, iname, pkgname, iname, burl))
         out.append("\t%s.ConfigHTTPClient(func(h *http.Client) { h.Transport = recT{http.DefaultTransport} })" % var)
     chunks = []
     for cid, var, m, pkg, args in cases:
